@@ -92,8 +92,12 @@ def _fingerprint(m):
     import tea_tasting.aggr as A
     mk = lambda n, mu, v: A.Aggregates(count_=n, mean_={"x": mu, "y": 2.0}, var_={"x": v, "y": 1.5}, cov_={("x", "y"): 0.3})
     out = []
+
+    def rnd(z, k):      # NaN (e.g. scipy's nct far tail) must compare equal to itself in a fingerprint
+        z = float(z)
+        return "nan" if z != z else round(z, k)
     try:
-        out.append(tuple(round(float(z), 12) for z in m.analyze_aggregates(mk(400, 10.0, 4.0), mk(500, 10.4, 5.0))))
+        out.append(tuple(rnd(z, 12) for z in m.analyze_aggregates(mk(400, 10.0, 4.0), mk(500, 10.4, 5.0))))
     except Exception as e:
         out.append(type(e).__name__)
     for par in ("rel_effect_size", "power"):
@@ -102,7 +106,7 @@ def _fingerprint(m):
             if par == "power":
                 m.rel_effect_size = 0.05
             res = m.solve_power(mk(900, 10.0, 4.5), par)
-            out.append(tuple(tuple(round(float(z), 10) for z in r) for r in res))
+            out.append(tuple(tuple(rnd(z, 10) for z in r) for r in res))
         except Exception as e:
             out.append(type(e).__name__)
         finally:
